@@ -247,3 +247,32 @@ def seal_family(prop):
         assumptions=["AES-GCM / X25519 strength is trusted; what is checked is which key, key id and associated data the code uses",
                      "secrets are searched as raw byte strings in the marshalled messages handed to Storage.Store"],
     )
+
+
+# ------------------------------------------------------------------ C13
+FAULT_FLOWS = ["authorize", "fetchNodeLed", "fetchToken", "fetchWrapped", "fetchRewrapped", "createToken", "rotateRoots", "rotateRoots0", "reinitRoots",
+               "rotateNode", "serverCerts", "nodeNew", "nodeHandle"]
+
+
+def faults_extra(prop, tier, seed):
+    out = []
+    for sw in ((False,) if tier == "quick" else (False, True)):
+        for flow in FAULT_FLOWS:
+            ops = [dict(op="Fault", flow=flow, pos=0, kind="generic", sw=sw)]
+            for pos in range(1, 9):
+                for kind in ("generic", "notfound", "cancelled"):
+                    ops.append(dict(op="Fault", flow=flow, pos=pos, kind=kind, sw=sw))
+            out.append(dict(id="flt_%s_%s" % (flow, "sw" if sw else "plain"), ops=ops))
+    return out
+
+
+def faults_family():
+    return dict(
+        driver="faults", trace_module="FaultsTrace.tla", trace_consts={}, level="fault_enumeration", fixed=None,
+        nontrivial=lambda p, l: l["op"]["pos"] > 0 and l["res"] != "skip",
+        mc=dict(quick=[("MC_Faults.tla", "MC_Faults.cfg")], thorough=[("MC_Faults.tla", "MC_Faults.cfg")]),
+        gen=[], extra=faults_extra,
+        rule={"*": "for each of 13 flows (authorize, fetch in node-led / token / wrapped / re-wrapped mode, token creation, root rotation from existing and from empty storage, reinitialisation, node credential rotation, server-certificate generation, node-side create and handle) the storage operations of the call are counted on a fault-free run of the REAL code, then the call is re-run once per (position, kind in generic / not-found / cancelled) with exactly that operation failing; non-trivial = runs with an injected fault; thorough adds the storage-wrapper variant"},
+        assumptions=["single faults only; positions are enumerated from the real run, the spec's operation sequences are compared as drift",
+                     "the bystander record of another node and the token record are read from the inner storage, bypassing injection"],
+    )
